@@ -143,10 +143,85 @@ func (r *Report) Finish() int {
 	if r.HarnessErr != "" {
 		ev["harness_error"] = r.HarnessErr
 	}
+	evPath := filepath.Join(dir, "evidence", r.Property+".json")
+	if os.Getenv("VERIF_APPEND") != "" && os.Getenv("VERIF_APPEND") != "0" {
+		// a later part of a multi-part check: add to what the earlier parts wrote
+		if old, err := os.ReadFile(evPath); err == nil {
+			var prev map[string]any
+			if json.Unmarshal(old, &prev) == nil {
+				ev = mergeEvidence(prev, ev)
+			}
+		}
+	}
 	b, _ := json.MarshalIndent(ev, "", " ")
 	os.MkdirAll(filepath.Join(dir, "evidence"), 0o755)
 	if r.HarnessErr == "" {
-		os.WriteFile(filepath.Join(dir, "evidence", r.Property+".json"), b, 0o644)
+		os.WriteFile(evPath, b, 0o644)
 	}
 	return newViol
+}
+
+// mergeEvidence adds the coverage of a later part to the evidence of the earlier parts.
+func mergeEvidence(prev, cur map[string]any) map[string]any {
+	out := prev
+	pc, _ := prev["coverage"].(map[string]any)
+	cc, _ := cur["coverage"].(map[string]any)
+	if pc == nil {
+		pc = map[string]any{}
+	}
+	for k, v := range cc {
+		switch k {
+		case "states", "transitions", "traces_validated_against_impl", "evaluations", "distinct_nontrivial", "schedules":
+			pc[k] = num(pc[k]) + num(v)
+		case "exhaustive":
+			a, _ := pc[k].(bool)
+			b, _ := v.(bool)
+			if _, had := pc[k]; had {
+				pc[k] = a && b
+			} else {
+				pc[k] = b
+			}
+		case "samples":
+			a, _ := pc[k].([]any)
+			b, _ := v.([]any)
+			if b == nil {
+				if bs, err := json.Marshal(v); err == nil {
+					json.Unmarshal(bs, &b)
+				}
+			}
+			pc[k] = append(a, b...)
+		case "rule":
+			pc[k] = fmt.Sprint(pc[k]) + " || " + fmt.Sprint(v)
+		default:
+			if _, had := pc[k]; had {
+				pc["part2_"+k] = v
+			} else {
+				pc[k] = v
+			}
+		}
+	}
+	out["coverage"] = pc
+	out["wall_s"] = num(prev["wall_s"]) + num(cur["wall_s"])
+	out["violations"] = num(prev["violations"]) + num(cur["violations"])
+	out["known_findings_hit"] = num(prev["known_findings_hit"]) + num(cur["known_findings_hit"])
+	if a, ok := prev["assumptions"].([]any); ok {
+		if b, err := json.Marshal(cur["assumptions"]); err == nil {
+			var bl []any
+			json.Unmarshal(b, &bl)
+			out["assumptions"] = append(a, bl...)
+		}
+	}
+	return out
+}
+
+func num(v any) float64 {
+	switch x := v.(type) {
+	case float64:
+		return x
+	case int:
+		return float64(x)
+	case int64:
+		return float64(x)
+	}
+	return 0
 }
